@@ -660,8 +660,13 @@ func helperResultLeaves(fl *Flow, v ssa.Value, facts FactSet) []Leaf {
 	if cal == nil || cal == fl.Fn || cal.Blocks == nil || cal.Synthetic != "" || funcPkgPath(cal) != funcPkgPath(fl.Fn) || !inModule(funcPkgPath(cal)) || leafDepth > 2 {
 		return nil
 	}
-	if leafStops[cal] || getterLike(cal) && len(returnsOf(cal)) <= 1 {
+	if leafStops[cal] || getterLike(cal) && len(returnsOf(cal)) <= 1 && !expandPureHelpers {
 		return nil // plain accessors are terms of their own; a pure helper that selects among several results is looked into
+	}
+	if expandPureHelpers {
+		// one level only: what the helper returns is named as the helper wrote it
+		expandPureHelpers = false
+		defer func() { expandPureHelpers = true }()
 	}
 	nres := cal.Signature.Results().Len()
 	if idx >= nres {
@@ -1172,6 +1177,8 @@ func isCarriedProposerKey(k string) bool {
 // from replaced by the keys of what those helpers return (when that is a single expression in the
 // caller's terms): `rnd, seed := newViewRand(shared, view)` reads as rand.New(rand.NewSource(shared+view)).
 func expandedKey(fl *Flow, v ssa.Value, at ssa.Instruction) string {
+	expandPureHelpers = true
+	defer func() { expandPureHelpers = false }()
 	k := fl.K.Key(v)
 	seen := map[ssa.Value]bool{}
 	var walk func(x ssa.Value, depth int)
@@ -1261,3 +1268,7 @@ func aliasHelperResults(fl *Flow, facts FactSet) FactSet {
 	}
 	return out
 }
+
+// expandPureHelpers: set while expandedKey runs, so that unexported single-expression helpers of the
+// package (pure, hence keyed without a site id) are replaced by the expression they return.
+var expandPureHelpers bool
